@@ -11,7 +11,7 @@ budget = sys.argv[3] if len(sys.argv) > 3 else "10"
 extra = sys.argv[4:]
 wave = os.environ.get("MUT_WAVE", "")
 src = "/tmp/mut/%s%s.out" % (prop, wave)
-label = which if not wave else {"w3": {"A": "C", "B": "D"}, "w4": {"A": "E", "B": "F"}, "w5": {"A": "G", "B": "H"}}[wave][which]
+label = which if not wave else {"w3": {"A": "C", "B": "D"}, "w4": {"A": "E", "B": "F"}}.get(wave, {}).get(which, wave)
 diff = os.path.join(src, which + ".diff")
 demo = os.path.join(src, "zz_demo_%s_%s_test.go" % (prop, which))
 env = dict(os.environ, GOFLAGS="-mod=mod", GOPROXY="off", GOSUMDB="off", GOTOOLCHAIN="local")
